@@ -84,13 +84,16 @@ func (p *Parser) ParseFile(filename string, varPool *VarPool) (*MetaData, []*Bui
 	// Find the syntax file that matches our target filename
 	var targetFile *ast.File
 	absFilename, _ := filepath.Abs(filename)
-	for i, f := range pkg.Syntax {
-		if f != nil && i < len(pkg.GoFiles) {
-			absGoFile, _ := filepath.Abs(pkg.GoFiles[i])
-			if absGoFile == absFilename {
-				targetFile = f
-				break
-			}
+	for _, f := range pkg.Syntax {
+		if f == nil {
+			continue
+		}
+		// The file is found by its position, not by its index: pkg.Syntax is not aligned
+		// with pkg.GoFiles once the package has files that import "C".
+		absGoFile, _ := filepath.Abs(p.fset.Position(f.Package).Filename)
+		if absGoFile == absFilename {
+			targetFile = f
+			break
 		}
 	}
 
